@@ -8,6 +8,7 @@ import RoModel.Drivers.Op
 import RoModel.Drivers.Chain
 import RoModel.Drivers.Cancel
 import RoModel.Drivers.Overlap
+import RoModel.Drivers.Cut
 namespace Ro.Driver
 
 def handlers : List (String × (Case → String)) := [
@@ -16,7 +17,8 @@ def handlers : List (String × (Case → String)) := [
   ("reuse", Drivers.Chain.runReuse),
   ("cancel", Drivers.Cancel.run),
   ("overlap", Drivers.Overlap.run),
-  ("leak", Drivers.Cancel.runLeak)
+  ("leak", Drivers.Cancel.runLeak),
+  ("cutin", Drivers.Cut.runCutIn), ("collect", Drivers.Cut.runCollect), ("teardown", Drivers.Cut.runTeardown)
 ]
 
 def runCase (c : Case) : String :=
